@@ -171,7 +171,7 @@ def gen_case(rng, cid, pool_texts):
                         [Rule("L", ["L", "I"], "l", 1, [0, 1]), Rule("L", ["I"], None, 0, [0]),
                          Rule("I", ["a", "b", "c", "d"], "i", 1, [0, 3]), Rule("I", ["error", "b", "c", "d"], "e", 2, [3])]
                         + ([Rule("I", ["a", "error", "d"], "f", 1, [0, 2])] if rng.random() < 0.5 else []))
-            cap = 400
+            cap = 48                      # the recovery search itself is expensive: seconds for 80 tokens
         else:
             # other error grammars may be exponentially ambiguous: short inputs there (building all parses of a
             # long input is legitimately expensive, and a watchdog is not a verdict)
@@ -180,7 +180,7 @@ def gen_case(rng, cid, pool_texts):
         terms = g.term_names()
         w = []
         sens = [x for x in gen.inputs_for(rng, g, 2, 6, 8) if x]
-        for _ in range(rng.randrange(5, 60)):
+        for _ in range(rng.randrange(5, 20)):
             x = list(rng.choice(sens)) if sens and rng.random() < 0.8 else [rng.choice(terms)]
             if x and rng.random() < 0.6:
                 del x[rng.randrange(len(x))]           # mostly a missing token: a recovery that ignores nothing
@@ -294,7 +294,7 @@ def _worker(args):
         cases[cid] = (kind, L, feats)
         lines += L
     exe = build.build(variant)
-    tr = run.run_text(exe, "\n".join(lines) + "\n", case_timeout=20)     # every case is tiny: 40 s without output = stuck
+    tr = run.run_text(exe, "\n".join(lines) + "\n", case_timeout=45)     # 90 s without a finished call = stuck
     for cid, (kind, L, feats) in cases.items():
         case = tr.get(cid)
         sh.evals += 1
